@@ -93,7 +93,11 @@ def run_wrap(ctx, c, which=("ser", "de")):
         ctx.check(ty_adt(cl) != ufb and not cl.get("args"), "R1.3", c.name, f"{fmt}|client-behaviour",
                   f"{fmt} client deserializer is bound to {tystr(cl)}; clients must not use the strict unknown-fields behaviour",
                   instance=f"{fmt} client -> {tystr(cl)}")
-        ctx.check(ty_adt(sv) == ufb and len(sv.get("args", [])) == 1 and sw.ty_eq(sv["args"][0], cl), "R1.3", c.name,
+        # (the wrapper may carry const parameters — knobs — besides the wrapped behaviour: the servers' values are recorded and the
+        # wrapper's methods are read at that instantiation, see C05)
+        sv_consts = [a_ for a_ in sv.get("args", [])[1:]]
+        res.setdefault("ufb_consts", {})[fmt] = sv_consts
+        ctx.check(ty_adt(sv) == ufb and len(sv.get("args", [])) >= 1 and all("const" in a_ for a_ in sv_consts) and sw.ty_eq(sv["args"][0], cl), "R1.3", c.name,
                   f"{fmt}|server-behaviour",
                   f"{fmt} server deserializer is bound to {tystr(sv)}, expected {ufb}<{tystr(cl)}> (strict wrapper around the client behaviour)",
                   instance=f"{fmt} server -> {tystr(sv)}")
@@ -128,7 +132,8 @@ def run_wrap(ctx, c, which=("ser", "de")):
             if ty_adt(i["self_ty"]) == ufb:
                 kb = i["assoc_tys"].get("KeyBehavior")
                 bp = i["self_ty"]["args"][0]
-                exp = {"adt": ufb, "args": [sw.key_behavior_of(bp, DE_BEH)]}
+                # (const parameters of the wrapper must be handed to the key behaviour unchanged)
+                exp = {"adt": ufb, "args": [sw.key_behavior_of(bp, DE_BEH)] + [a_ for a_ in i["self_ty"]["args"][1:] if "const" in a_]}
                 ctx.check(kb is not None and sw.ty_eq(kb, exp), "R5.1", f"{i['file']}:{i['line']}", "ufb|KeyBehavior",
                           f"{ufb}::KeyBehavior is {tystr(kb)}, expected {tystr(exp)}", instance=f"{ufb}::KeyBehavior = {tystr(kb)}")
     # ---- R1.4 surface completeness (wrappers, entry types, transparent forwarders)
